@@ -668,3 +668,71 @@ Proof.
            nag trans initial seed prng n_stoch t a Ht Ha Ht').
 Qed.
 Print Assumptions C02_every_simulated_row_with_filters_is_optimal_for_the_specifications_solution.
+
+(* ---- the data state-choice space: the regenerated create_data_scs (Gen/DataSCS.v) ------------------------------------------ *)
+From LCM Require Import Model.Dispatchers Gen.DataSCS Proofs.C02_DataSCS Proofs.C02_DataSCSTie.
+(* With filter-restricted choices, create_data_scs returns: one row per (agent, filter-passing combination of the restricted      *)
+(* choices), agents in order, combinations in row-major order; a state's column repeats the agent's value, a restricted choice's   *)
+(* column lists the combination's grid value, the segment of a row is its agent; the dense variables are the dense discrete        *)
+(* choices.  The filter is evaluated at the values of the row itself (never at a mix of rows) and at `_period` = the period.       *)
+Theorem C02_code_data_state_choice_space :
+  forall (sig : list string) (scalar_filter : list qarr -> qarr),
+  (forall a, wf (scalar_filter a) /\ shape (scalar_filter a) = []) -> NoDup sig ->
+  forall (states : list (string * list Q)) (vi : list varinfo) (grids : list (string * list Q)) (period : nat),
+  NoDup (map fst states) -> NoDup (map fst grids) ->
+  (forall s col, In (s, col) states -> length col = scs_n states) ->
+  (forall s, In s (map fst states) -> ~ In s (map fst (scs_choices vi grids))) ->
+  filter (fun v => (is_sparse v && is_choice v)) vi <> [] ->
+  set_eqb (map vname (filter (fun v => is_state v) vi)) (map fst states) = true ->
+  scs_vmapped sig <> [] ->
+  (forall p, In p (scs_vmapped sig) -> In p (map fst states) \/ In p (map fst (scs_choices vi grids))) ->
+  (0 < scs_n states)%nat ->
+  let rows := scs_rows sig scalar_filter states vi grids period in
+  rows = flat_map (fun a => map (pair a) (filter (fun ci => scs_keep sig scalar_filter states vi grids period (a, ci)) (scs_cis vi grids)))
+                  (seq 0 (scs_n states)) /\
+  exists ds, create_data_scs sig scalar_filter states vi grids period = Some ds /\
+  map fst (ds_sparse_vars ds) = (map fst states ++ map fst (scs_choices vi grids))%list /\
+  (forall s col, In (s, col) states ->
+     assoc s (ds_sparse_vars ds) = Some (map (fun r : nat * list nat => nth (fst r) col 0%Q) rows)) /\
+  (forall j name arr, nth_error (scs_choices vi grids) j = Some (name, arr) ->
+     assoc name (ds_sparse_vars ds) = Some (map (fun r : nat * list nat => nth (nth j (snd r) 0%nat) arr 0%Q) rows)) /\
+  ds_choice_segments ds = Some (map fst rows, length (nodup Nat.eq_dec (map fst rows))) /\
+  ds_dense_vars ds
+  = filter (fun ng => mem_str (fst ng) (map vname (filter (fun v => ((is_dense v && is_choice v) && negb (is_continuous v))) vi))) grids.
+Proof.
+  intros sig sf H1 H2 states vi grids period H3 H4 H5 H6 H7 H8 H9 H10 H11. split.
+  - exact (rows_by_agent sig sf states vi grids period).
+  - exact (create_data_scs_rows sig sf H1 H2 states vi grids period H3 H4 H5 H6 H7 H8 H9 H10 H11).
+Qed.
+Print Assumptions C02_code_data_state_choice_space.
+
+(* these rows and columns ARE the data rows the decision theorems with filters above are stated on *)
+Theorem C02_code_data_rows_are_the_models :
+  forall (sig : list string) (scalar_filter : list qarr -> qarr) (states : list (string * list Q)) (vi : list varinfo)
+         (grids : list (string * list Q)) (period : nat) (rc : list (string * grid)),
+  scs_choices vi grids = map (fun xg : string * grid => (fst xg, grid_points (snd xg))) rc ->
+  forall keep' : nat -> list nat -> bool,
+  (forall a ci, (a < scs_n states)%nat -> in_bounds (sizes rc) ci -> keep' a ci = scs_keep sig scalar_filter states vi grids period (a, ci)) ->
+  let rows := scs_rows sig scalar_filter states vi grids period in
+  rows = data_rows rc (scs_n states) keep' /\
+  (forall col, map (fun r : nat * list nat => nth (fst r) col 0%Q) rows = rep_col rc (scs_n states) keep' col) /\
+  map (fun jxg : nat * (string * grid) =>
+         map (fun r : nat * list nat => nth (nth (fst jxg) (snd r) 0%nat) (grid_points (snd (snd jxg))) 0%Q) rows)
+      (combine (seq 0 (length rc)) rc) = rc_cols rc (scs_n states) keep' /\
+  map fst rows = data_ids rc (scs_n states) keep'.
+Proof. exact data_scs_is_the_data_rows_model. Qed.
+Print Assumptions C02_code_data_rows_are_the_models.
+
+Local Open Scope string_scope.
+Example C02_data_scs_nonvacuous :
+  (* two agents with wealth 1 and 3; a restricted choice d in {0, 1, 2}; the filter admits d <= w *)
+  let sf := fun a : list qarr => scalar (Qofbool (Qleb (qget (nth 0 a dflt_arr) []) (qget (nth 1 a dflt_arr) []))) in
+  let vi := [mkVarinfo "w" true false false true false false false true; mkVarinfo "d" false true false true false false true false;
+             mkVarinfo "e" false true false true false false false true] in
+  let grids := [("w", [0%Q; 1%Q; 2%Q; 3%Q]); ("d", [0%Q; 1%Q; 2%Q]); ("e", [0%Q; 1%Q])] in
+  match create_data_scs ["d"; "w"; "_period"] sf [("w", [1%Q; 3%Q])] vi grids 0 with
+  | Some ds => ds_sparse_vars ds = [("w", [1%Q; 1%Q; 3%Q; 3%Q; 3%Q]); ("d", [0%Q; 1%Q; 0%Q; 1%Q; 2%Q])] /\
+               ds_choice_segments ds = Some ([0; 0; 1; 1; 1]%nat, 2%nat) /\ map fst (ds_dense_vars ds) = ["e"]
+  | None => False
+  end.
+Proof. vm_compute. repeat split. Qed.
